@@ -4,12 +4,12 @@ LEVEL = "other"
 
 def check(rep, tier):
     from contracts import rules_exact, tracer_primitive, tracer_trace, core_outgrads
-    tracer_primitive.run(rep, tier, only=("W1", "W2", "W3"))
-    tracer_trace.run(rep, tier, only=("TR-result",))
-    core_outgrads.run(rep, tier, only=("AO-dense",))
-    rules_exact.run(rep, tier, rules_exact.CLAUSE_PROPS["C06"])
-    rules_exact.run(rep, tier, ("X-value", "X-numpy", "X-notracer"), which="index")
+    rep.run(tracer_primitive.run, rep, tier, only=("W1", "W2", "W3"))
+    rep.run(tracer_trace.run, rep, tier, only=("TR-result",))
+    rep.run(core_outgrads.run, rep, tier, only=("AO-dense",))
+    rep.run(rules_exact.run, rep, tier, rules_exact.CLAUSE_PROPS["C06"])
+    rep.run(rules_exact.run, rep, tier, ("X-value", "X-numpy", "X-notracer"), which="index")
     from contracts import containers
-    containers.run_exact(rep, tier, clauses=('K-value',))
+    rep.run(containers.run_exact, rep, tier, clauses=('K-value',))
     from contracts import value_transparency
-    value_transparency.run(rep, tier)
+    rep.run(value_transparency.run, rep, tier)
